@@ -1,10 +1,10 @@
-\* thorough tier: lengths {1,5,28,29,30}, <= 7 tokens
+\* thorough tier: lengths {1,5,28,29,30,35}, <= 6 tokens
 \* greedy filling as in the code: token lengths {1,5,28,30}, <= 5 tokens,
 \* (line_len, max_line_len) over {30,31,60,80,100}^2
 SPECIFICATION Spec
 CONSTANTS
   TokLens <- LenSetBig
-  MaxToks = 7
+  MaxToks = 6
   LineLens <- WidthSet
   MaxLineLens <- WidthSet
   Variant = "greedy"
